@@ -64,3 +64,37 @@ MUTANTS = [
       "\tif len(leftovers) == 0 {\n\t\treturn session.processInput(maxDuration)\n\t}\n\tif newLeftovers, retry := session.resendLeftovers(leftovers); newLeftovers != nil {\n\t\treturn newLeftovers, retry\n\t}\n\n\treturn session.processInput(maxDuration)", "none (benign-looking shortcut that skips close of the old leftovers channel)", expect="violation"),
     M("c02-r9-no-abort-on-ack-error", "C02", "C02.R9", SESS, "\t\t\tsession.abortConn(func() {\n\t\t\t\tclogger.Info(\"abort connection after error reading ACK to interrupt sending loop\")\n\t\t\t})\n\t\t\treturn", "\t\t\treturn", "ACK read error while the sender is blocked in a write"),
 ]
+
+FILES = "util/files.go"
+
+MUTANTS += [
+    # ---------------- C03
+    M("c03-r1-no-drop-count", "C03", "C03.R1", BUF, "\tdefault:\n\t\tbuf.chunkMan.OnChunkDropped(chunk)\n", "\tdefault:\n", "queue of 500000 chunks full"),
+    M("c03-r1-double-input", "C03", "C03.R1", BUF, "\t\tbuf.chunkMan.OnChunkInput(false)\n", "\t\tbuf.chunkMan.OnChunkInput(false)\n\t\tbuf.chunkMan.OnChunkInput(false)\n", "spill path (memory window half full)"),
+    B("c03-r1-benign-swap-log", "C03", BUF, "\t\tif chunk.Data != nil {\n\t\t\tbuf.logger.Warnf(\"queue overflow, drop loaded chunk: id=%s len=%d\", chunk.ID, len(chunk.Data))\n\t\t} else {\n\t\t\tbuf.logger.Warnf(\"queue overflow, drop unloaded chunk id=%s\", chunk.ID)\n\t\t}",
+      "\t\tif chunk.Data == nil {\n\t\t\tbuf.logger.Warnf(\"queue overflow, drop unloaded chunk id=%s\", chunk.ID)\n\t\t} else {\n\t\t\tbuf.logger.Warnf(\"queue overflow, drop loaded chunk: id=%s len=%d\", chunk.ID, len(chunk.Data))\n\t\t}"),
+    M("c03-r2-blocking-accept", "C03", "C03.R2", BUF, "\tselect {\n\tcase buf.inputChannel <- chunk:\n\t\tif chunk.Data != nil {\n\t\t\tbuf.metrics.queuedChunksTransient.Inc()", "\tif len(buf.inputChannel) < 10 {\n\t\tbuf.inputChannel <- chunk\n\t\treturn\n\t}\n\tselect {\n\tcase buf.inputChannel <- chunk:\n\t\tif chunk.Data != nil {\n\t\t\tbuf.metrics.queuedChunksTransient.Inc()", "two pipelines' workers racing on a nearly full queue"),
+    M("c03-r3-revert-leftover-fix", "C03", "C03.R3", CMAN, "\tif !man.UnloadOrDropChunk(&chunk) {\n\t\t// the chunk could not be saved (space limit, I/O error or no queue dir): it's lost and counted as dropped\n\t\treturn\n\t}\n", "\tman.operator.UnloadChunk(&chunk)\n", "hand-back at shutdown with the space limit reached (original defect D13)"),
+    B("c03-r3-benign-ignore-in-save", "C03", FEED, "\t\tif feeder.chunkMan.UnloadOrDropChunk(&lastInputChunk) {\n\t\t\tnumSaved++\n\t\t} else {\n\t\t\tnumDropped++\n\t\t}", "\t\tfeeder.chunkMan.UnloadOrDropChunk(&lastInputChunk)\n\t\tnumSaved++"),
+    M("c03-r4-saved-before-write", "C03", "C03.R4", COP, "\tif werr := util.WriteFileAt(op.maybeDir, chunkRef.ID, chunkRef.Data, 0o644); werr != nil {", "\tchunkRef.Saved = true\n\tif werr := util.WriteFileAt(op.maybeDir, chunkRef.ID, chunkRef.Data, 0o644); werr != nil {", "write error at spill time"),
+    M("c03-r4-no-quota", "C03", "C03.R4", COP, "\tif op.metrics.persistentChunkBytes.Get()+int64(len(chunkRef.Data)) > op.maxTotalBytes {", "\tif op.metrics.persistentChunkBytes.Get() > op.maxTotalBytes {", "a chunk larger than the remaining quota"),
+    B("c03-r4-benign-len-once", "C03", COP, "\tif op.metrics.persistentChunkBytes.Get()+int64(len(chunkRef.Data)) > op.maxTotalBytes {", "\tdataLen := int64(len(chunkRef.Data))\n\tif op.metrics.persistentChunkBytes.Get()+dataLen > op.maxTotalBytes {"),
+    M("c03-r5-forward-empty", "C03", "C03.R5", FEED, "\t\tfeeder.chunkMan.OnChunkCorrupted(chunk)\n\t\treturn true\n", "\t\tfeeder.chunkMan.OnChunkCorrupted(chunk)\n", "zero-length file in the queue dir"),
+    M("c03-r5-false-after-corrupt", "C03", "C03.R5", FEED, "\t\tfeeder.chunkMan.OnChunkCorrupted(chunk)\n\t\treturn true\n", "\t\tfeeder.chunkMan.OnChunkCorrupted(chunk)\n\t\treturn false\n", "zero-length file followed by shutdown: removed chunk saved again"),
+    M("c03-r5-lose-chunk-in-hand", "C03", "C03.R5", FEED, "\t\t\tlastInputChunk = chunk\n\t\t\tbreak\n", "\t\t\tbreak\n", "Destroy while the feeder blocks on a full window"),
+    M("c03-r6-second-feeder", "C03", "C03.R6", BUF, "\tgo buf.feeder.Run()\n", "\tgo buf.feeder.Run()\n\tgo buf.feeder.Run()\n", "two feeders reorder chunks"),
+    M("c03-r6-recv-in-accept", "C03", "C03.R6", BUF, "\tdefault:\n\t\tbuf.chunkMan.OnChunkDropped(chunk)\n", "\tdefault:\n\t\tselect {\n\t\tcase old := <-buf.inputChannel:\n\t\t\tbuf.chunkMan.OnChunkDropped(old)\n\t\tdefault:\n\t\t}\n\t\tbuf.chunkMan.OnChunkDropped(chunk)\n", "full queue: oldest chunk stolen from the feeder"),
+    M("c03-r7-no-sort", "C03", "C03.R7", COP, "\tsort.Strings(fnames)\n\n\tchunkList", "\tchunkList", "restart with several queued files (directory order is arbitrary)", more=[(COP, "\t\"io\"\n\t\"os\"\n\t\"sort\"\n", "\t\"io\"\n\t\"os\"\n")]),
+    M("c03-r7-accept-unmatched", "C03", "C03.R7", COP, "\t\t\top.logger.Warnf(\"skip unmatched chunk file id=%s\", fn)\n\t\t\tcontinue\n", "\t\t\top.logger.Warnf(\"skip unmatched chunk file id=%s\", fn)\n", "stale temp file or foreign file in the queue dir"),
+    M("c03-r9-leftover-no-dec", "C03", "C03.R9", CMAN, "\tman.metrics.pendingChunks.Dec()\n\tman.metrics.leftoverChunksTotal.Inc()", "\tman.metrics.leftoverChunksTotal.Inc()", "stop with leftovers in sendAllAtEnd mode: WaitForZero never satisfied"),
+    # ---------------- C04
+    M("c04-r1-revert-short-write", "C04", "C04.R1", FILES, "\twerr := writeAllToFD(fd, data)\n", "\t_, werr := unix.Write(fd, data)\n", "short write (file size limit / disk full): original defect D10"),
+    M("c04-r1-ignore-close", "C04", "C04.R1", FILES, "\tif cerr := unix.Close(fd); werr == nil {\n\t\twerr = cerr\n\t}\n", "\tunix.Close(fd)\n", "delayed write error reported at close (NFS, quota)"),
+    M("c04-r1-no-advance", "C04", "C04.R1", FILES, "\t\tif n <= 0 {\n\t\t\treturn io.ErrShortWrite\n\t\t}\n\t\tdata = data[n:]\n", "\t\tif n <= 0 {\n\t\t\treturn io.ErrShortWrite\n\t\t}\n\t\tbreak\n", "short write"),
+    M("c04-r2-revert-temp-name", "C04", "C04.R2", FILES, "\ttempname := filename + tempFileSuffix\n", "\ttempname := filename\n", "crash or write error mid-file: original defect D11"),
+    M("c04-r2-rename-before-close", "C04", "C04.R2", FILES, "\twerr := writeAllToFD(fd, data)\n", "\tif rerr := unix.Renameat(dirFD, tempname, dirFD, filename); rerr != nil {\n\t\tunix.Close(fd)\n\t\treturn rerr\n\t}\n\twerr := writeAllToFD(fd, data)\n", "crash while writing"),
+    M("c04-r2-temp-suffix-matches", "C04", "C04.R2", FILES, "const tempFileSuffix = \".tmp\"", "const tempFileSuffix = \".tmp.ff\"", "crash mid-write, fluentd output"),
+    B("c04-r2-benign-rename-suffix", "C04", FILES, "const tempFileSuffix = \".tmp\"", "const tempFileSuffix = \".partial\""),
+    M("c04-r4-revert-short-read", "C04", "C04.R4", FILES, "\tfor off := 0; off < len(buf); {\n\t\tn, rerr := unix.Read(fd, buf[off:])\n\t\tif rerr != nil {\n\t\t\tunix.Close(fd)\n\t\t\treturn nil, rerr\n\t\t}\n\t\tif n <= 0 {\n\t\t\tunix.Close(fd)\n\t\t\treturn nil, io.ErrUnexpectedEOF\n\t\t}\n\t\toff += n\n\t}\n",
+      "\tn, rerr := unix.Read(fd, buf)\n\tif rerr != nil {\n\t\tunix.Close(fd)\n\t\treturn nil, rerr\n\t}\n\tif n != len(buf) {\n\t\tbuf = buf[:n]\n\t}\n", "short read: original defect D12"),
+]
